@@ -83,6 +83,7 @@ var plans = map[string]*Plan{
 	"C06": {
 		Level:     "exploration",
 		Scenarios: []ScenPlan{{"lbaff", 12000, 60000}},
+		RacePhase: []ScenPlan{{"sysrace", 600, 9000}},
 		QuickWallS: 120, ThoroughWallS: 1500,
 		Rule:        "Scenario lbaff: ip_hash / ip_hash_consistent, 1-6 backends, 16-64 (thorough 64-512) client identities (IPv4/IPv6 peers, X-Forwarded-For single/list/junk, X-Real-IP) issuing sequential and concurrent requests with varying paths/ports/headers across a drawn history of appends, removes, ejections and expiries (epochs); oracle: one identity -> one backend per epoch, append moves a key only to the appended backend, every choice eligible, no panic. The exhaustive 2^32 sweep of the hash step is NOT performed (pure function; DESIGN.md §4).",
 		Real:        microReal, Stub: microStub, Assumptions: commonAssumptions,
@@ -91,6 +92,7 @@ var plans = map[string]*Plan{
 	"C13": {
 		Level:     "exploration",
 		Scenarios: []ScenPlan{{"lbacct", 30000, 600000}, {"sysfault", 8000, 150000}, {"sysws", 3000, 40000}, {"sysxfer", 4000, 60000}, {"lbmix", 8000, 200000}},
+		RacePhase: []ScenPlan{{"sysrace", 800, 12000}},
 		QuickWallS: 120, ThoroughWallS: 1500,
 		Rule:        "Scenario lbacct: every request class (ok, 4xx, 5xx, unreachable, aborted mid-body, client gone, rate-limited, breaker-rejected, no healthy backend, held) sequentially and with 2-8 (thorough 2-64) concurrent clients; conservation equations against the harness' own tallies at every quiescent point. Scenario lbmix: the books balance after traffic interleaved with admin adds and removes, strategy switches, ejections and Stop.",
 		Real:        microReal, Stub: microStub, Assumptions: commonAssumptions,
@@ -123,6 +125,7 @@ var plans = map[string]*Plan{
 	"C20": {
 		Level:     "exploration",
 		Scenarios: []ScenPlan{{"wspool", 40000, 800000}, {"sysws", 8000, 150000}},
+		RacePhase: []ScenPlan{{"wsrace", 320, 4800}},
 		QuickWallS: 120, ThoroughWallS: 1500,
 		Rule:        "Scenario wspool: the real WebSocketPool, max_idle 0-3, idle_timeout 1-90s, 1-2 backends, 1-3 holder tasks with drawn scripts over get/put(new)/put(held)/close/sleep/stats, cleanup ticks on the fake clock, shutdown; exclusivity, staleness, idle bound, shutdown closure checked against the harness' own view of every connection. Scenario sysws: an Upgrade session through the real server and every drawn plugin chain (logging, size_limit, gzip, headers, custom-auth, request-id in drawn order) to a scripted backend answering 101; both ends send drawn binary chunks (0-100KB) in a drawn interleaving with fragmentation and delays, one side closes at a drawn point; received stream == sent stream (prefix towards the closer), close propagates within 2 simulated minutes.",
 		Real:        append([]string{"internal/loadbalancer WebSocketPool (instrumented)"}, sysReal...), Stub: append([]string{"pooled connections (in-memory fake net.Conn)"}, sysStub...), Assumptions: commonAssumptions,
@@ -163,7 +166,7 @@ var plans = map[string]*Plan{
 	},
 	"C15": {
 		Level:     "exploration",
-		Scenarios: []ScenPlan{{"sysplug", 12000, 250000}},
+		Scenarios: []ScenPlan{{"sysplug", 12000, 250000}, {"sysfault", 8000, 120000}},
 		QuickWallS: 150, ThoroughWallS: 1700,
 		Rule:        "Scenario sysplug with gzip in a drawn chain position (optionally with size_limit/logging): Accept-Encoding spellings, content types in/outside the configured prefixes, sizes around min_size, compressible/incompressible payloads, pre-encoded backend responses (gzip, br), levels -1..9, bodiless statuses; oracle: decode the client's bytes by the Content-Encoding/Content-Length it received == backend body, status equal, compressed only if eligible, otherwise byte-identical (C01 oracle). The 10MB buffering cap is not exercised in the quick tier.",
 		Real:        sysReal, Stub: sysStub, Assumptions: commonAssumptions,
@@ -172,7 +175,7 @@ var plans = map[string]*Plan{
 	"C12": {
 		Level:     "exploration",
 		Race:      true,
-		Scenarios: []ScenPlan{{"sysrace", 1600, 24000}, {"comprace", 1600, 24000}, {"idsrace", 320, 4800}},
+		Scenarios: []ScenPlan{{"sysrace", 1600, 24000}, {"comprace", 1600, 24000}, {"idsrace", 320, 4800}, {"wsrace", 320, 4800}},
 		Micro:     []ScenPlan{{"lbmix", 16000, 400000}},
 		
 		QuickWallS: 200, ThoroughWallS: 1700,
